@@ -11,6 +11,7 @@ open Drand.Driver.DkgD
 open Drand.Driver.DkgRunD
 open Drand.Driver.HandlerD
 open Drand.Driver.HashD
+open Drand.Driver.HttpWD
 open Drand.Driver.NetD
 open Drand.Driver.RouteD
 open Drand.Driver.SecrecyD
@@ -79,5 +80,6 @@ def main (args : List String) : IO UInt32 := do
     match storeInit backend with
     | some st => loopState stdin stdout storeStep st; return 0
     | none => IO.eprintln "bad backend"; return 2
+  | "httpw" :: rest => loopState stdin stdout hwStep (hwInit (rest.headD "asis")); return 0
   | "route" :: _ => loopState stdin stdout routeStep Drand.Daemon.State.init; return 0
   | _ => IO.eprintln "usage: vdriver <engine>"; return 2
